@@ -207,6 +207,40 @@ def itransTol (xMin xMax : Rat) : Rat := (1 / 10 ^ 10) * (xMax - xMin)
 def inverseTransform (findRoot : (Rat → Rat) → Rat → Rat → Rat → Rat) (cdf : Rat → Rat) (g : G) (xMin xMax : Rat) : Rat × G :=
   (findRoot (fun x => (sampleUniform u01 g 0 1).1 - cdf x) xMin xMax (itransTol xMin xMax), (sampleUniform u01 g 0 1).2)
 
+/-! ### The acceptance test as the doubles evaluate it: ratio classes, `std::min` argument order -/
+
+/-- `PDF(candidate) / PDF(x)` in IEEE arithmetic: a zero denominator gives NaN (0/0) or ±inf -/
+inductive Ratio where
+  | nan
+  | posInf
+  | negInf
+  | fin (r : Rat)
+  deriving DecidableEq, Repr
+
+def pdfRatio (pc px : Rat) : Ratio :=
+  if px = 0 then (if pc = 0 then .nan else if pc > 0 then .posInf else .negInf) else .fin (pc / px)
+
+/-- `std::min(1.0, r)` = `(r < 1.0) ? r : 1.0` — every comparison with NaN is false, so NaN gives `1.0` (the order the C++ uses) -/
+def minOneLeft : Ratio → Ratio
+  | .nan => .fin 1
+  | .posInf => .fin 1
+  | .negInf => .negInf
+  | .fin r => .fin (if r < 1 then r else 1)
+
+/-- `std::min(r, 1.0)` = `(1.0 < r) ? 1.0 : r` — NaN stays NaN (the swapped order) -/
+def minOneRight : Ratio → Ratio
+  | .nan => .nan
+  | .posInf => .fin 1
+  | .negInf => .negInf
+  | .fin r => .fin (if 1 < r then 1 else r)
+
+/-- `u < acceptance_probability` -/
+def acceptD (u : Rat) : Ratio → Bool
+  | .nan => false
+  | .posInf => true
+  | .negInf => false
+  | .fin a => decide (u < a)
+
 /-! ### Parameter guards (fix d65f15f): requests outside the parameter range stop with a diagnostic
 
   `Sample_Uniform` (x_max < x_min), `Sample_Gauss` (standard_deviation < 0) and `Sample_Poisson`
